@@ -1260,7 +1260,12 @@ class Engine:
         fr.block = f.entry; fr.code = f.blocks[f.entry].code; fr.ip = 0
         st.frames.append(fr)
         if len(st.frames) > 400:
-            raise EngineError('call depth > 400 in ' + name)
+            # unbounded recursion is reported as a (termination) violation candidate; it only counts if the native replay
+            # confirms it (stack overflow), otherwise the obligation is inconclusive
+            names = [fx.fn.name for fx in st.frames[-60:]]
+            cyc = max(set(names), key=names.count)
+            self.violation(st, 'recursion', 'call depth exceeds 400 frames: unbounded recursion through %s' % cyc)
+            raise PathEnd('violation')
         return fr
 
     def pop_frame(self, st):
